@@ -117,7 +117,14 @@ package app
 // ApplyReconciler: all-or-nothing. A result exists only when a creator produced a reconciler, every step succeeded
 // and the safeguard accepted the edited text; it never touches the disk (frame: no modifies clause). The steps are
 // opaque functions here (A-PUREFN); the first failing step ends the loop before MakeResult is reached.
+// error.go — an application error carries the code it was created with; the codes are the (non-zero) exit statuses.
+//@ func NewErrorWithCode
+//@ ensures typeis(result, AppError) && result.(AppError).code == code
+//@ func NewError
+//@ ensures typeis(result, AppError) && result.(AppError).code == 1
+
 //@ func ApplyReconciler
+//@ ensures implies(nonnil(result1), typeis(result1, AppError) && result1.(AppError).code >= 1)
 //@ requires forall(i, 0, len(reconcile), reconcile[i] != nil)
 //@ ensures isnil(result1) == (result0 != nil)
 //@ ensures implies(result0 != nil, txt.valid(result0.AllSerialised))
